@@ -27,6 +27,10 @@ def gen(rng, tier):
             G2 = common.mk_graph(n + 1, [tuple(x) for x in G["edges"]] + [(0, n, 1)], None, 0); G2["names"] = G["names"] + ["zz_extra"]; E2 = list(D) + [0]
         elif kind == "chips":
             E2 = list(D); E2[rng.randrange(n)] += rng.choice([-1, 1, 2 ** 64])
+            if n >= 2 and rng.random() < 0.5:      # same total: a transfer between two vertices, often two vertices where D holds nothing
+                i, j = rng.sample(range(n), 2); E2 = list(D); amt = rng.choice([1, 2, -1, 2 ** 64])
+                if rng.random() < 0.6: D = list(D); D[j] += D[i]; D[i] = 0; D[i], D[j] = (0, D[j]) ; E2 = list(D); z = [v for v in range(n) if D[v] == 0 and v != i]; j = rng.choice(z) if z else j
+                E2[i] += amt; E2[j] -= amt
         out.append({"G": G, "G2": G2, "D": D, "E": E, "F": F, "E2": E2, "k": rng.choice([0, 1, -1, 2, -3, 7, 2 ** 65, -2 ** 63]), "kind": kind, "v": rng.randrange(n + 1), "s": rng.randrange(1 << 30)})
     return out
 def impl(c):
